@@ -62,6 +62,12 @@ CHECKS = {
         "Inequality directions are thermodynamic facts; no closed-form TS optimum is assumed; R6 finding excluded by an input-only predicate.",
         "DESIGN.md section 5 C09",
     ),
+    "C10": (
+        "Hypothesis @given hostile label sets (with / without user tree); counting oracle over the zone tree by component-wise prefix rule",
+        "Generated-input search (3k quick / 100k thorough) over flat / deep / suffix / prefix / O<n>-clashing / root-name / empty labels and duplicate stream names: every zone of prepare_problem()'s tree and of the service's tree must hold exactly the multiset of streams labelled into it (hot and cold separately), unit-operation children partition the exactly-labelled streams, utilities are per-zone copies with equal values.",
+        "Streams identified by value tuples; three known findings (O<n> name extending a label, label on a non-leaf user node, ambiguous suffix) excluded by input-only predicates.",
+        "DESIGN.md section 5 C10",
+    ),
     "C20": (
         "Hypothesis @given over arrangement x label form x (NTU, c, passes): round-trip, bound, limit and symmetry oracles",
         "Generated-input search (12k quick / 600k thorough cases, 16 shards) against round-trip, counter-flow bound (independent formula), c=0 limit, monotonicity and LMTD bound/symmetry/refusal oracles; scalar float domain is sampled densely with 0/1 boosted, so a wrong formula or dispatch shows within seconds; absence is not proven.",
